@@ -8,6 +8,8 @@ CONSTANTS
   ReadThenUnlink = TRUE
   UnlinkOnDrop = TRUE
   CreateErrIsExist = TRUE
+  DirtyAfterWrite = TRUE
+  MaxFail = 2
 INVARIANTS TypeOK Refines DirIsMap NothingLeftBehind OccupiedIffInserted ReadsReturnStored GoneIsError Emit
 
 CHECK_DEADLOCK FALSE
